@@ -2,9 +2,9 @@ SPEC = dict(
     props_file="Props/C08.v",
     level="proof",
     observers=[dict(cmd="obs_cachekey", imports=["Model.CacheKey"], case_type="CacheKey.case", check="CacheKey.check_case",
-                    shard=150, n={"quick": 1500, "thorough": 60000}),
+                    shard=150, n={"quick": 1000, "thorough": 20000}),
                dict(cmd="obs_adapter", args=["-prop", "C08"], imports=["Model.Lru", "Model.Adapter"], case_type="Adapter.case", check="Adapter.check_case",
-                    shard=25, n={"quick": 100, "thorough": 4000})],
+                    shard=25, n={"quick": 60, "thorough": 1500})],
     rule="obs_cachekey: token lists of 0-7 tokens over mixed alphabets (arbitrary bytes, empty tokens, digit strings), read-only-script "
          "commands incl. numkeys <> 1 and too-short ones (panics), MGET / JSON.MGET forms; pairs of distinct commands: arguments "
          "re-split at random cut points (same name and key), name absorbing a suffix of the key (TTL kP / PTTL k), key-only "
